@@ -49,6 +49,12 @@ func (ft *funcTrans) calleeContract(com *ssa.CallCommon) *Contract {
 			return c
 		}
 	}
+	// call of a func-typed parameter of the function under contract: "funcparam:<pkgpath>.<Func>.<param>"
+	if pa, ok := com.Value.(*ssa.Parameter); ok && pa.Parent() != nil && pa.Parent().Pkg != nil {
+		if c := ft.p.Contracts["funcparam:"+pa.Parent().Pkg.Pkg.Path()+"."+pa.Parent().Name()+"."+pa.Name()]; c != nil {
+			return c
+		}
+	}
 	// call of a value of a named func type: contract keyed "functype:<pkgpath>.<Type>"
 	if nt, ok := com.Value.Type().(*types.Named); ok {
 		if _, isSig := nt.Underlying().(*types.Signature); isSig && nt.Obj().Pkg() != nil {
@@ -272,7 +278,7 @@ func (ft *funcTrans) call(in ssa.CallInstruction, val *ssa.Call) {
 		o := ft.obligation("requires", fmt.Sprintf("call%d.%s.requires%d", ft.nCalls, shortName(name), i+1), r.Src, t.S)
 		o.Where = posStr(ft.p.SSA.Fset, in.Pos())
 	}
-	if ft.c != nil && ft.c.NoPanic && !c.NoPanic && !c.Trusted && !strings.HasPrefix(c.Key, "funcfield:") && !strings.HasPrefix(c.Key, "functype:") {
+	if ft.c != nil && ft.c.NoPanic && !c.NoPanic && !c.Trusted && !strings.HasPrefix(c.Key, "funcfield:") && !strings.HasPrefix(c.Key, "functype:") && !strings.HasPrefix(c.Key, "funcparam:") {
 		o := ft.obligation("nopanic", fmt.Sprintf("call%d.%s.nopanic", ft.nCalls, shortName(name)), "callee must be nopanic", "false")
 		o.Where = posStr(ft.p.SSA.Fset, in.Pos())
 	}
